@@ -16,7 +16,7 @@ _DOMAINS = (
     "DAY, MIN: all 65536; DTM: every day of the range x 9 minute values, every minute of the first and last three days, "
     "3000 values beyond the maximum and around 2^31/2^32, plus the 4-byte domain; BTI/HTI/VTI: every second of the day "
     "plus the generic domain; BTM/HTM/VTM/TTM/TTH/TTQ/BDY/HDY: all patterns; STR/NTS/HEX/IGN: every string of length "
-    "1..4 over a 12-byte alphabet, lengths 5..31 and '*' with 6 pattern families; value lists on 17 type/list "
+    "1..4 over a 12-byte alphabet, lengths 5..31 and '*' with 6 pattern families; value lists on 32 type/list "
     "combinations; TEM_P in master and slave data: all 65536; KNX 16-bit float: all 65536."
 )
 
